@@ -99,4 +99,5 @@ def run(ctx, rep):
     import api_rules as AR
     AR.check_mapper_constructors(fx, rep, "C02.8")
     AR.check_frame_api(fx, rep, "C02.api")
+    AR.check_mapping_wiring(fx, rep, "C02.api")
     rep.assumptions += ["domain: non-empty names, line numbers < 2^32-1 (empty strings are stored as the sentinel by the string table)"]
